@@ -517,6 +517,62 @@ def member(ctx, R, py, modules):
     return n
 
 
+NOCOPY_CALLS = ("asarray", "asanyarray", "ascontiguousarray", "asfarray", "frombuffer", "atleast_1d", "memoryview")
+NOCOPY_METHODS = ("ravel", "reshape", "view", "squeeze", "swapaxes", "transpose")
+COPY_CALLS = ("array", "copy", "deepcopy", "list", "tuple", "UnitArray", "UnitValue", "flatten", "tolist", "astype")
+
+
+def alias(ctx, R, py, modules):
+    """ALIAS -- an object keeps its own arrays: what a setter or constructor stores into `self` from an array argument is a copy
+    (`np.array(v)`, `v.copy()`), not a view of the caller's buffer (`np.asarray(v)`, `.ravel()`, `.reshape()`): the per-entry
+    setters write in place, and a shared buffer makes such a write show up in the caller's array and in every other object built
+    from it."""
+    from . import pysym
+    n = 0
+    for mn in modules:
+        m = py.mods.get(mn)
+        ctx.need(m is not None, R, "module %s not found" % mn)
+        for f in m.funcs.values():
+            if getattr(f, "_cls", None) is None or not (getattr(f, "_role", "") == "setter" or f.name == "__init__"):
+                continue
+            ps = set(pyfe.params(f)) - {"self"}
+            for st in ast.walk(f):
+                if not (isinstance(st, ast.Assign) and len(st.targets) == 1 and isinstance(st.targets[0], ast.Attribute) and
+                        isinstance(st.targets[0].value, ast.Name) and st.targets[0].value.id == "self"):
+                    continue
+                # the stored expression with the re-bindings of the parameter written out (v = np.asarray(v) ; self._x = v)
+                chain = [st.value]
+                if isinstance(st.value, ast.Name):
+                    chain += [a.value for a in ast.walk(f) if isinstance(a, ast.Assign) and len(a.targets) == 1 and
+                              isinstance(a.targets[0], ast.Name) and a.targets[0].id == st.value.id and a.lineno < st.lineno]
+                view = None
+                for e in chain:
+                    outer = e
+                    # peel the outermost calls: a copying call anywhere outside the view makes the result fresh
+                    while isinstance(outer, ast.Call):
+                        nm = pyfe.call_name(outer).split(".")[-1]
+                        if nm in COPY_CALLS:
+                            outer = None
+                            break
+                        if nm in NOCOPY_CALLS or nm in NOCOPY_METHODS:
+                            arg = outer.args[0] if nm in NOCOPY_CALLS and outer.args else \
+                                outer.func.value if isinstance(outer.func, ast.Attribute) else None
+                            if arg is not None and {x.id for x in ast.walk(arg) if isinstance(x, ast.Name)} & ps:
+                                inner_copy = any(isinstance(c_, ast.Call) and pyfe.call_name(c_).split(".")[-1] in COPY_CALLS
+                                                 for c_ in ast.walk(arg))
+                                if not inner_copy:
+                                    view = e
+                            outer = arg
+                            continue
+                        break
+                n += 1
+                ctx.check(view is None, R, st, f._qual, pyfe.src(st)[:70], "a copy of the argument (or not an array conversion)",
+                          "`%s` is a view of the caller's array (no copy is made when the argument already is an int / float "
+                          "ndarray): in-place writes through this object's setters change the caller's array and every other "
+                          "object sharing it" % (pyfe.src(view)[:50] if view is not None else ""), nontrivial=False)
+    return n
+
+
 def run(ctx, pid, py, modules, truth_floor=1):
     from . import truth
     truth.rule(ctx, pid + ".TRUTH", py, modules, floor=truth_floor)
@@ -528,6 +584,7 @@ def run(ctx, pid, py, modules, truth_floor=1):
     memo(ctx, pid + ".MEMO", py, modules)
     copyout(ctx, pid + ".COPYOUT", py, modules)
     member(ctx, pid + ".MEMBER", py, modules)
+    alias(ctx, pid + ".ALIAS", py, modules)
     unused(ctx, pid + ".PARAMS", py, modules, ctx.cx if pid in CX_PROPS else None)
     if pid in CX_PROPS or pid in ("C07", "C16"):
         from . import cxacc
